@@ -172,9 +172,10 @@ func (self *visitorUserNode) OnNull() error {
 		self.inskip = false
 		return nil
 	}
-	// self.stk[self.sp].val = &visitorUserNull{}
-	if err := self.incrSP(); err != nil {
-		return err
+	// null denotes the absent value: nothing is written for the member
+	if self.globalFieldDesc == nil {
+		// null as an array element or as the whole document
+		return nil
 	}
 	return self.onValueEnd()
 }
